@@ -32,11 +32,11 @@ PROPS = {
         level_text="Machine-checked Coq theorems (generic float format, all widths and precisions): the lazy model's "
                    "left_cumulative_and_probability equals the eager table entry for every symbol (prefix sums "
                    "started from -0.0 vs +0.0 included, last symbol special case included); the lazy "
-                   "quantile_function equals the eager table lookup for every quantile < 2^P PROVIDED the "
-                   "skip-ahead loop stopped no later than the right symbol (C05_lazy_dec_eq_eager_partial; "
-                   "unconditional for quantiles <= n). Tied to the source by the bit-exact differential check.",
-        level_note="Partial: conservativeness of the `enlarged_scale` lower bound is a hypothesis of the decoder "
-                   "theorem (a float error analysis that is not done); it is exercised by the correspondence and "
+                   "quantile_function equals the eager table lookup for every quantile < 2^P (C05_lazy_dec_eq_eager; "
+                   "Proofs/FloatQ_skip.v proves that the float-only skip-ahead loop with the (1+2eps)*scale bound "
+                   "never passes the owner of the quantile, for every binary format with prec >= 3 and emax >= 66, "
+                   "f32 and f64 included). Tied to the source by the bit-exact differential check.",
+        level_note="Full for f32/f64 (the formats the crate instantiates). Also exercised by the correspondence and "
                    "the lazy-vs-eager oracle on every decoded quantile incl. full sweeps for P <= 12. Axioms: the "
                    "four Reals axioms via Flocq.",
         technique="Coq proof (same expression tree up to the sign of zero) + correspondence + lazy-vs-eager oracle",
